@@ -49,6 +49,11 @@ int vnadata_set_fprecision(vnadata_t *vdp, int precision)
 		"invalid precision: %d", precision);
 	return -1;
     }
+    if (precision > VNADATA_MAX_PRECISION) {
+	_vnadata_error(vdip, VNAERR_USAGE, "vnadata_set_fprecision: "
+		"precision may not exceed %d", VNADATA_MAX_PRECISION);
+	return -1;
+    }
     vdip->vdi_fprecision = precision;
     return 0;
 }
